@@ -21,7 +21,7 @@ func oracleHashes() Oracle {
 				return viol("hash", "Hash() = %x, reference hash of v%d %x", got, m.Cur, want)
 			}
 		}
-		for _, v := range m.Versions() {
+		for _, v := range m.VersionsDesc() {
 			it, err := t.GetImmutable(v)
 			if err != nil {
 				return viol("hash", "GetImmutable(%d) failed: %v", v, err)
